@@ -17,6 +17,12 @@ PROP = {
         "Sonic.Props.C17.run_reach",
         "Sonic.Model.WsAsync.step_inv",
         "Sonic.Model.WsAsync.reach_inv",
+        "Sonic.Props.C17.C17_monitor_accepts_model",
+        "Sonic.Props.C17.C17_observed_steps_are_model_steps",
+        "Sonic.Model.WsAsyncObs.step_sim",
+        "Sonic.Model.WsAsyncObs.run_sim",
+        "Sonic.Model.WsAsyncObs.sim_onframe",
+        "Sonic.Model.WsAsyncObs.outcome",
     ],
     "runs": [{
         "component": "wsconc",
@@ -56,6 +62,11 @@ PROP = {
         "harness/wsconc.go: real AsyncAdapter and poller over real sockets; the io.ReadWriter given to the adapter reports what read(2)/"
         "write(2) did; the independent wire parser and frame encoder of harness/wsstream.go; hook (*Stream).VerifAttach",
         "the property monitor Spec/WsAsync.lean (ledger of callback ids, submission-order matching of the parsed wire) is independent of the model",
+        "Model/WsAsyncObs.lean: the observation function of the refinement theorem (which monitor events a model run produces). It "
+        "gives every frame identity of the model the content its submitter gave it (frame bytes are C16) and places the peer's "
+        "reports (`drain`) and the end of the run (`finish`) where the harness places them; the trace driver reads `call` lines and "
+        "peer frames through the same functions (Call.action / Call.ev / absFrame) and rejects a trace on which the model driver and "
+        "the monitor driver disagree about a call",
     ],
     "assumptions": [
         "usage as documented: one AsyncNextFrame/AsyncNextMessage outstanding at a time (the next one is started from the callback or later), "
@@ -80,7 +91,18 @@ PROP = {
                       "continuation and control replies never swallow a write completion); while the transport has not failed, wire ++ frame in "
                       "flight ++ pendingFrames = the submitted frames in order (application frames in call order, a Pong/Close reply behind what "
                       "was queued before the Ping/Close was read) and byte for byte the transport has received whole frames followed by a "
-                      "prefix of the frame in flight (no interleaved or repeated bytes). The model with the serialisation flag ignored (the code "
+                      "prefix of the frame in flight (no interleaved or repeated bytes). Refinement (C17_monitor_accepts_model): the property "
+                      "monitor the real traces are checked with accepts EVERY history of the model - for every sequence of observed labels "
+                      "(model labels with the concrete data of a trace line, plus the peer sending frames, the peer reporting the frames it "
+                      "parsed, the end of the run) the events a process would observe of it are accepted, by a coupling invariant between "
+                      "model, observer and monitor states kept by every step (step_sim; 21 clauses: callback ledger, nesting, frames owed to "
+                      "the wire = submitted minus reported, peer stream = frames not yet delivered, which read is outstanding) and induction "
+                      "over the run, transport failures included; the observation is total on model transitions "
+                      "(C17_observed_steps_are_model_steps). Proving it showed the monitor rejected legitimate histories after a transport "
+                      "failure (an error completion of a write, and the wire after a lost frame): the monitor is now told of transport "
+                      "failures (event transportErr, fed from the '? write err' / '? read err' lines) and compares the wire only while the "
+                      "transport is healthy, as the property states; and the model now distinguishes protocol errors from transport errors "
+                      "in read results (compared with the implementation on every run). The model with the serialisation flag ignored (the code "
                       "before 54ea8af) is shown by concrete runs (decide) to overwrite the reactor, drop the continuation of a read, and repeat "
                       "bytes after a partial write; both scripts are in the corpus and are reported again when the fix is reverted. Outside the "
                       "theorems, exercised by the correspondence check only: the real adapter, poller and kernel (readiness, bytes accepted per "
@@ -91,8 +113,10 @@ PROP = {
                       "(validated on every run by the differential trace check against a real websocket.Stream on a real AsyncAdapter over TCP, "
                       "including callback order, inline vs deferred completion, State(), Pending(), buffer sizes handed to the transport and the "
                       "frames parsed by an independent RFC 6455 parser on the peer side); the monitor of callback ids and wire order is "
-                      "independent of the model; Linux TCP loopback, epoll, the Go runtime.",
+                      "independent of the model and accepts every model history (proved); the observation function Model/WsAsyncObs.lean "
+                      "(content of frame identities, placement of the peer's reports); Linux TCP loopback, epoll, the Go runtime.",
         "technique": "Lean 4 invariant proof over a labelled transition system (callback ledger by counting, wire order by list equations, "
-                     "historical witness by decide) + differential trace correspondence on a real adapter/socket with an independent wire parser",
+                     "historical witness by decide) + refinement proof (model histories accepted by the property monitor, coupling invariant) "
+                     "+ differential trace correspondence on a real adapter/socket with an independent wire parser",
     },
 }
